@@ -140,6 +140,8 @@ def replay(spec, indent, sep, trailing, column, custom, column2=None):
     try:
         out, before, after, nb, out2 = drv(spec, indent, sep, trailing, column, custom, column2)
     except Exception as ex:  # noqa
+        from pysym.harness import guard_repo_exception
+        guard_repo_exception(ex)
         return {"input": [spec, indent, sep, trailing, column, custom], "observed": f"raised {type(ex).__name__}: {ex}", "expected": "text"}
     col = auto_col(spec) if column == "auto" else column
     exp = [] if custom == BAD else [t for c, t in render(spec, indent, sep, trailing, col, custom) if c is True]
